@@ -200,7 +200,8 @@ func usesImport(body string, name string) bool {
 		// References to imported definitions are always exported names: pkg.Type, pkg.OpenType, etc.
 		k := j + len(q)
 		exported := k < len(body) && body[k] >= 'A' && body[k] <= 'Z'
-		if exported && (j == 0 || !isIdentChar(body[j-1])) {
+		// A selector like c.client.Request is a field access, not the package.
+		if exported && (j == 0 || (!isIdentChar(body[j-1]) && body[j-1] != '.')) {
 			return true
 		}
 		i = j + 1
